@@ -100,7 +100,7 @@ CLAIMS = {
                 'plus faucet markers); accepted => every input existed or is created in the batch and none repeats; '
                 'rejected => state untouched; no reachable panic.',
         'design_ref': 'DESIGN.md §8 C02',
-        'note': COMMON_NOTE + ' Bounds: 1 tx x (2 in, 2 out) and 2 tx x (1,1) (thorough: 2x(2,2), 3x(1,1)), all TxKinds except '
+        'note': COMMON_NOTE + ' Bounds: 1 tx x (2 in, 2 out) and 2 tx x (1,1) (thorough: + (2,1)+(1,2); the input-loading kernel alone also on (2,2)+(2,2) and three transactions), all TxKinds except '
                 'DoscMint, height >= 1. CoinMapping methods enter through their contracts (discharged in C20); covenants '
                 'are uninterpreted; base_fee over-approximated; A-HASH/A-CODEC/A-FRESH.',
         'technique': 'bounded symbolic execution of rustc MIR with state joining + z3/cvc5 obligations against a reference map model',
